@@ -394,7 +394,9 @@ def compare(case, impl, model):
         return "rule tree: implementation %s, model %s" % (json.dumps(impl["rules"]), json.dumps(model["rules"]))
     if impl["encoding"] != model["encoding"]:
         return "sheet.encoding: implementation %r, model %r" % (impl["encoding"], model["encoding"])
-    if stateless(case):
+    if stateless(case) and not nested_kept(impl["rules"]):
+        # (an unloaded nested @import is re-requested at another URL by resolveImports -- open finding
+        #  C20-resolve-rebase-kept-import --, which the pure model of the flattening does not follow)
         mr = "EXC:HierarchyRequestErr" if model["resolve"] is None else model["resolve"]
         if impl["resolve"] != mr:
             return "resolveImports: implementation %s, model %s" % (json.dumps(impl["resolve"]), json.dumps(mr))
@@ -487,6 +489,7 @@ def oracle(case, impl):
     if impl.get("default_calls"):
         out.append(("the default (network/file) fetcher was called: %r" % impl["default_calls"][:3], sig))
     absolute = bool(urllib.parse.urlparse(case["href"] or cwd_url()).scheme)
+    rebased = bool(impl.get("resolve_calls") and nested_kept(impl.get("rules", [])))
     # (util.urljoin deliberately differs from RFC 3986 for relative bases: 'test.css' + '../x.css' = '../x.css';
     #  the URL statements are evaluated for absolute sheet URLs only)
     if absolute and impl["r"] != "D":
@@ -533,9 +536,11 @@ def oracle(case, impl):
         return out
     penc = top["charset"]
     seen = {}
+    shared = not stateless(case) and any(it[0] == "I" for bl in case["table"].values() for b in bl
+                                         if b[0] in ("text", "bytes") for it in b[2]["items"])
     for r, it in zip(got, want):
-        if not documented(case):
-            break
+        if not documented(case) or shared:
+            break       # (a flaky URL that nested sheets request too: which answer a rule got is not determined here)
         # a rule that failed is retried once by insertRule: the second answer counts
         u0 = None
         try:
@@ -577,7 +582,11 @@ def oracle(case, impl):
     # resolveImports
     if stateless(case) and documented(case) and not cyclic:
         res = impl.get("resolve")
-        if isinstance(res, str):
+        if isinstance(res, str) and rebased:
+            # consequence of the re-request at the wrong URL (it may now load something, with exceptions enabled)
+            out.append(("resolveImports re-requested a kept nested @import at another URL and raised %s" % res[4:],
+                        sig + " resolve-rebase"))
+        elif isinstance(res, str):
             out.append(("resolveImports raised %s" % res[4:], sig + " resolve"))
         elif res is not None:
             exp_styles, exp_kept = flat_spec(impl["rules"])
@@ -589,6 +598,17 @@ def oracle(case, impl):
             if kept != exp_kept:
                 out.append(("resolveImports: kept @import rules %r, expected %r" % (kept, exp_kept), sig + " resolve"))
     return out
+
+
+def nested_kept(rules, depth=0):
+    """is there an unloaded @import below the top level?"""
+    for r in rules:
+        if r[0] == "import":
+            if not r[3] and depth > 0:
+                return True
+            if nested_kept(r[5], depth + 1):
+                return True
+    return False
 
 
 def styles_of(flat, media=None):
